@@ -221,7 +221,7 @@ CLAIMS = {
         "recording identity kernels on random bond patterns and caps. PARTIAL: exactness of the local Krylov steps (C19), truncation "
         "error (C09), second order of the symmetric splitting / first order of BUG are not mechanised; the search checks norm and "
         "energy drift and the error against the dense exp(-iHt) at dt and dt/2 (ratio test above the noise floor) and the agreement "
-        "of the two integrator orders. Extended: step_ops (which operator tensors a step works with) with theorem and operator-identity trace incl. an MPO object rebuilt in place; wide 8-site chains (matrix-free local steps). BUG step list (bug.bug) modelled and traced: every site forward by one dt once, own operator tensor and environment blocks, truncation last. One-site integrator model (SingleSite.v); mirrored sweeps second-order (Strang.v). Eight-level Bose-Hubbard chain with nothing cut (local blocks of 4096 entries: compiled Krylov path) vs exp(-iHT). The shortest runs (one and two steps, both orders, with and without intermediate sampling, both modes) vs exp(-iHT).",
+        "of the two integrator orders. Extended: step_ops (which operator tensors a step works with) with theorem and operator-identity trace incl. an MPO object rebuilt in place; wide 8-site chains (matrix-free local steps). BUG step list (bug.bug) modelled and traced: every site forward by one dt once, own operator tensor and environment blocks, truncation last. One-site integrator model (SingleSite.v); mirrored sweeps second-order (Strang.v). Eight-level Bose-Hubbard chain with nothing cut (local blocks of 4096 entries: compiled Krylov path) vs exp(-iHT). The shortest runs (one and two steps, both orders, with and without intermediate sampling, both modes) vs exp(-iHT). Stiff local steps (large coupling x time step, unconstrained bonds) vs exp(-iHT).",
         COMMON_NOTE,
         "DESIGN.md §3 C05"),
     "C19": (
